@@ -21,7 +21,7 @@ func (c13) Size(tier string) Size {
 	return Size{Batches: 16, Cases: 1500}
 }
 func (c13) Rule() string {
-	return "case = random type (soft or struct-backed) + resource payloads in which a random SUBSET of its attributes and relationships is present (every subset enumerated for a 7-field type in the directed part), relationships present with only links/meta and no data, explicit null values and null data, mostly valid and sometimes invalid literals, plus kind-mutated payloads; the same bytes go through UnmarshalPartialResource and UnmarshalResource. Oracle: accepted by one iff accepted by the other; on acceptance the partial resource's type name is the schema type's, Attrs() keys == the payload's attribute names and Rels() keys == the relationship members carrying a data member (both read by my own JSON walk), each definition equals the schema's, each value equals what full unmarshaling gives, Get of an absent field is nil. Non-trivial = payload with a proper non-empty subset of the type's fields; distinct = payload hash."
+	return "case = random type (soft or struct-backed) + resource payloads in which a random SUBSET of its attributes and relationships is present (every subset enumerated for a 7-field type in the directed part), relationships present with only links/meta and no data, explicit null values and null data, mostly valid and sometimes invalid literals, plus kind-mutated payloads; the same bytes go through UnmarshalPartialResource and UnmarshalResource. Oracle: accepted by one iff accepted by the other; on acceptance the partial resource's type name is the schema type's, Attrs() keys == the payload's attribute names and Rels() keys == the relationship members carrying a data member (both read by my own JSON walk), each definition equals the schema's, each value equals what full unmarshaling gives, Get of an absent field is nil. One payload in four is followed (some preceded) by further bytes: white space only is still JSON, anything else is not, for both paths alike. Non-trivial = payload with a proper non-empty subset of the type's fields; distinct = payload hash."
 }
 func (c13) Assumptions() []string {
 	return []string{"'carries a data member' includes an explicit null", "values are compared through my Val reader (untyped nil == typed nil pointer)"}
@@ -261,6 +261,16 @@ func (m c13) Case(c *Ctx, r *RNG) {
 			if len(slots) > 0 {
 				*slots[r.Intn(len(slots))] = &JV{Kind: 'r', Str: c05replacements[r.Intn(len(c05replacements))]}
 				m.run(c, &t, root.bytes())
+			}
+		}
+		// bytes around the object: leading / trailing white space is JSON, anything else after the value is not
+		if r.Chance(1, 4) {
+			tail := r.Pick([]string{"}", "]", ",", " null", "\n" + string(data), string(data), " x", "\x00", " \n\t ", "\n", "//c", "0", "\"\"", "{}", "[]", " \ufeff"})
+			m.run(c, &t, append(append([]byte{}, data...), tail...))
+			c.Count("payloads_with_bytes_after_the_object")
+			if r.Bool() {
+				head := r.Pick([]string{" ", "\n\t", "\ufeff", "x", "[", ","})
+				m.run(c, &t, append([]byte(head), data...))
 			}
 		}
 		// unknown field
